@@ -140,6 +140,9 @@ Qed.
 Lemma if_same {A} (b: bool) (x: A) : (if b then x else x) = x.
 Proof. destruct b; reflexivity. Qed.
 
+Lemma early_fail_same stubs C : early_fail stubs C C = false.
+Proof. unfold early_fail. destruct (c_post C); reflexivity. Qed.
+
 (* ---------------------------------------------------------------- T1: union-free schemas, both paths *)
 Section Trace.
   Variable E : env.
@@ -198,7 +201,7 @@ Section Trace.
              ++ flat_map (fun kx => match kx with (_, x) => trav E (c_ctx (cls E cr)) ck x end) fs
              ++ (if c_post (cls E cr) then [Post cr j kk] else [])).
   Proof.
-    intros Hnd Hij Hall Hg Hk. unfold body.
+    intros Hnd Hij Hall Hg Hk. unfold body. rewrite early_fail_same.
     rewrite (fields_trace m (subs_of E stubs m fs) (c_ctx (cls E cr)) ck fs (c_fields (cls E cr))); auto.
     - assert ((if c_pre (cls E cr) then j else i) = j) as Hj.
       { destruct (c_pre (cls E cr)); [reflexivity|]. simpl in Hij. apply Nat.eqb_eq in Hij. assumption. }
@@ -394,7 +397,7 @@ Section Once.
     let r := body E stubs cr cr i j (subs_of E stubs Mixin fs) kk ck in
     fst r = true /\ map erase (snd r) = map erase (trav E pc k (VInst cr i j fs)).
   Proof.
-    intros Hnd Hij Hall Hg. unfold body.
+    intros Hnd Hij Hall Hg. unfold body. rewrite early_fail_same.
     destruct (fields_once (subs_of E stubs Mixin fs) (c_ctx (cls E cr)) ck fs (c_fields (cls E cr))) as [H1 H2]; auto.
     { intros k0 x Hin. unfold subs_of. apply assoc_map_nodup; assumption. }
     match goal with |- context [seqM ?l] => destruct (seqM l) as [ok tf] end.
